@@ -7,6 +7,7 @@ import BqVerif.Proofs.CircKahn2
 import BqVerif.Proofs.CircPopQudit
 import BqVerif.Proofs.CircUnfold
 import BqVerif.Proofs.CircBatchUnfold
+import BqVerif.Proofs.CircRemoveAll
 /-! # C05 — all views of a Circuit stay mutually consistent after every edit
 
 The views (`next/prev/front/rear/first_on/last_on`, counters, iteration) are *functions of the
@@ -263,5 +264,10 @@ example :
           [⟨6, [], [3, 2], [2, 2]⟩, ⟨6, [], [0, 1], [2, 2]⟩]]⟩, .ok ()) ∧
       (c.batchUnfold b [(0, 3), (0, 0), (-1, 1)]).1.invB = true ∧
       c.batchUnfold b [(0, 3), (1, 0)] = (c, .error .index) := by decide
+
+/-- **remove_all keeps the invariant**, for every predicate (operation or gate to remove) -/
+theorem C05_inv_remove_all (c : Circ) (hinv : c.Inv) (pred : Op → Bool) :
+    (c.removeAll pred).Inv ∧ (c.removeAll pred).radixes = c.radixes :=
+  ⟨removeAll_inv c hinv pred, by rw [removeAll_eq c hinv pred]⟩
 
 end BqVerif.C05
